@@ -94,6 +94,13 @@ def dt_from_spec(s):
     if off is None:
         return d
     kind = s.get('tz', 'py')
+    if kind.startswith('tzstr:'):
+        # a host zone whose offset varies (daylight saving), as hosts get
+        # from dateutil / zoneinfo; one tzinfo object per spec
+        z = _state.setdefault('tzstr', {}).get(kind)
+        if z is None:
+            z = _state['tzstr'][kind] = tz.tzstr(kind[6:])
+        return d.replace(tzinfo=z)
     if kind == 'dateutil':
         z = tz.tzutc() if off == 0 else tz.tzoffset(None, off * 60)
     else:
@@ -197,7 +204,9 @@ def gen_zone(w, around=None):
 
 
 CLAUSES = ['ts_roundtrip', 'dt_roundtrip', 'utc', 'addsub', 'compare',
-           'units', 'build', 'naive']
+           'units', 'build', 'naive', 'hostzone']
+HOSTZONES = ['EST5EDT,M3.2.0,M11.1.0', 'CET-1CEST,M3.5.0,M10.5.0/3',
+             'AEST-10AEDT,M10.1.0,M4.1.0/3', 'NST3:30NDT,M3.2.0,M11.1.0']
 
 
 def gen_case(seeds, params, index):
@@ -208,6 +217,15 @@ def gen_case(seeds, params, index):
     d = gen_dt(w)
     if clause == 'naive':
         d['off'] = None
+    if clause == 'hostzone':
+        d['off'] = 0            # placeholder, the zone decides the offset
+        d['tz'] = 'tzstr:' + w.choice(HOSTZONES)
+        d['f'][0] = w.randrange(1990, 2040)
+        if w.random() < 0.6:
+            # near a typical transition date
+            d['f'][1], d['f'][2] = w.choice([(3, 8), (3, 14), (3, 27), (3, 30),
+                                             (10, 3), (10, 25), (10, 31),
+                                             (11, 1), (11, 7), (4, 3)])
     vals['d'] = ['dt', d]
     d2 = gen_dt(w)
     r = w.random()
@@ -227,6 +245,9 @@ def gen_case(seeds, params, index):
             pass
     vals['d2'] = ['dt', d2]
     vals['t'] = ['ts', gen_ts(w)]
+    if clause == 'hostzone' and w.random() < 0.7:
+        vals['t'] = ['ts', [w.choice([0, 1, -1, 7]), w.choice([0, 1, 12, 24, -3]),
+                            w.choice([0, 30]), 0, 0, 0]]
     o = gen_off(w)
     vals['o'] = ['ts', [0, 0, o, 0, 0, 0]]
     r = w.random()
@@ -281,6 +302,8 @@ PROGRAMS = {
     'build': [('datetime($f[0], $f[1], $f[2], $f[3], $f[4], $f[5], $f[6], $o)',
                'r'), ('$r.offset', 'ro'), ('$r.timestamp', 'q'),
               ('$r.utc', 'u')],
+    'hostzone': [('$d + $t', 'r1'), ('$r1 - $t', 'r2'), ('$r1 - $d', 'r3'),
+                 ('[$r2 = $d, $r3 = $t, ($t + $d) = $r1]', 'b')],
     'naive': [('[$d.offset, $d.timestamp, $d.utc]', 'p'),
               ('[$d - $d2, $d < $d2, $d >= $d2, $d = $d2]', 'c'),
               ('$d + $t', 'r1'), ('$r1 - $d', 'r3')],
@@ -478,6 +501,27 @@ def check_clause(case, out):
             if list(out['b']) != [True, True, True, False]:
                 bad('equality of round-tripped values', got=list(out['b']),
                     expected=[True, True, True, False])
+    elif clause == 'hostzone':
+        # only the two round-trip identities are claimed for zones whose
+        # offset varies (Python adds timespans on the wall clock there)
+        try:
+            ok_range = MARGIN <= wall_us(d) + t_us <= WALL_MAX - MARGIN
+        except Exception:
+            ok_range = False
+        if not ok_range:
+            edge[0] = True
+        if need('r1', 'r2', 'r3', 'b'):
+            r2 = out['r2']
+            if r2.replace(tzinfo=None) != d.replace(tzinfo=None) or \
+                    r2.utcoffset() != d.utcoffset():
+                bad('(d + t) - t != d (host zone with varying offset)',
+                    got=repr(r2), expected=repr(d))
+            if td_us(out['r3']) != t_us:
+                bad('(d + t) - d != t (host zone with varying offset)',
+                    got=td_us(out['r3']), expected=t_us)
+            if list(out['b']) != [True, True, True]:
+                bad('equality of round-tripped values (host zone)',
+                    got=list(out['b']), expected=[True, True, True])
     elif clause == 'compare':
         if not in_range(di, doff) or not in_range(d2i, d2off):
             edge[0] = True
